@@ -254,7 +254,7 @@ class Engine(Core, ExprMixin, CallMixin, StmtMixin):
             finally:
                 os._exit(0)
         os.close(w_fd)
-        hard = timeout_ms / 1000.0 + 3.0
+        hard = timeout_ms / 1000.0 + 3.0 + (75.0 if self.mode == "INV" else 0.0)   # room for the subset and seed portfolios
         chunks = []
         try:
             while True:
@@ -337,6 +337,26 @@ class Engine(Core, ExprMixin, CallMixin, StmtMixin):
                     s2.add(z3.Not(ob.goal))
                     if s2.check() == z3.unsat:
                         return {"result": "unsat", "portfolio": "assumptions with fewer than %d nodes" % cap}
+                # seed portfolio on the medium subset: quantifier instantiation is sensitive to the solver's random seed (measured: the
+                # same obligation is proved in 0.1-1.4 s with 4 of 12 seeds and never with the others).  Each attempt is limited by
+                # z3's deterministic resource counter, not by the clock, so the outcome does not depend on machine load.
+                for sd in range(1, 11):
+                    z3.set_param("smt.random_seed", sd)
+                    s2 = z3.Solver()
+                    s2.set("random_seed", sd)
+                    s2.set("rlimit", 3000000)
+                    s2.set("timeout", max(20000, timeout_ms))
+                    for a in self.base_axioms():
+                        s2.add(a)
+                    for a in self.assumptions[:ob.n_assump]:
+                        if term_size(a, 400) < 400:
+                            s2.add(a)
+                    for p in ob.path:
+                        s2.add(p)
+                    s2.add(z3.Not(ob.goal))
+                    if s2.check() == z3.unsat:
+                        return {"result": "unsat", "portfolio": "assumptions with fewer than 400 nodes, random seed %d" % sd}
+                z3.set_param("smt.random_seed", 0)
             for a in self.assumptions[:ob.n_assump]:
                 s.add(a)
             for p in ob.path:
@@ -375,7 +395,7 @@ class Engine(Core, ExprMixin, CallMixin, StmtMixin):
                 finally:
                     os._exit(0)
             os.close(w_fd)
-            running[r_fd] = [pid, ob, time.time(), timeout_ms / 1000.0 + 3.0, []]
+            running[r_fd] = [pid, ob, time.time(), timeout_ms / 1000.0 + 3.0 + (75.0 if self.mode == "INV" else 0.0), []]
 
         def finish(fd, killed=False):
             pid, ob, t0, hard, chunks = running.pop(fd)
